@@ -28,7 +28,8 @@ Inductive ferr :=
 | EHdrOverflow    (* header size overflows int *)
 | ESegTooLarge    (* segment %d too large *)
 | EUnaligned      (* segment %d not word-aligned *)
-| ESizeOverflow.  (* marshal: message size overflows int *)
+| ESizeOverflow   (* marshal: message size overflows int *)
+| EUnpack.        (* unmarshal: <error of packed.Unpack> *)
 
 Inductive res (A : Type) :=
 | Ok (a : A)
